@@ -166,10 +166,11 @@ def run(rep, prop, tier, replay_name=None, only=None):
         # random walks of two schedulers and three jobs over the life of a token, commands issued in pairs at the same time
         from .common import seed as _seed
 
-        n = 8 if tier == "quick" else 240
+        n = 0 if tier == "quick" else 240       # (the quick tier keeps to the scripted, forced interleavings)
         base = 100000 * _seed()
-        rj, rr = token.run_random(range(base, base + n))
-        jobs, results = jobs + rj, results + rr
+        if n:
+            rj, rr = token.run_random(range(base, base + n))
+            jobs, results = jobs + rj, results + rr
     if replay_name and replay_name.startswith("random:"):
         jobs, results = token.run_random([int(replay_name.split(":")[1])])
     verdicts, stats = token.validate(results)
